@@ -259,6 +259,8 @@ def run(ctx):
     # a transaction may be declared finished (READY again) only after its batches were flushed: otherwise a batch of the aborted
     # transaction survives into the next one (rule shared with C07)
     c07.rule_flush_before_end(ctx)
+    from .common import rule_get_conn_contains
+    rule_get_conn_contains(ctx, "fatal")
     from .common import rule_instance_state
     rule_instance_state(ctx, ("aiokafka.producer.",))
     rep.nd("'without any effect on the cluster' beyond the absence of a request-creating call on the raising path")
